@@ -1,0 +1,13 @@
+//go:build verif
+
+package edit
+
+import "src.elv.sh/pkg/cli/tk"
+
+// Exports for the verification harness (/verif). Only built with -tags verif.
+
+// VerifIsSyntaxComplete is the decision smart-enter uses.
+func VerifIsSyntaxComplete(code string) bool { return isSyntaxComplete(code) }
+
+// VerifBufferBuiltins returns the table of buffer builtins (name -> function on a CodeBuffer).
+func VerifBufferBuiltins() map[string]func(*tk.CodeBuffer) { return bufferBuiltinsData }
